@@ -12,8 +12,11 @@ rules carry the side conditions that delimit where rssl's algorithm (per-macro `
 the replacement list in isolation, `early_function_pos`) and the C algorithm (per-token hide sets, rescanning together
 with the rest of the source) provably coincide:
 
-* `OnlyDisabled`: what an argument expands to contains no macro name that is still enabled (otherwise rssl expands
-  it again when it rescans the replacement list, C does not: deviation `argument-repainted`);
+* `ArgOK` = `OnlyDisabled` or `AllKept`: what an argument expands to contains no macro name that is still enabled
+  (otherwise rssl expands it again when it rescans the replacement list, C does not: deviation `argument-repainted`)
+  -- unless nothing was expanded in the argument at all: then its tokens carry exactly the hide set of the invocation
+  and behave like tokens of the replacement list (the bare name of a function-like macro passed to a macro that
+  invokes it, `APPLY(NEG, a)`, `LIST(DECL)`);
 * `NoFire`: the expansion of a replacement list does not end in the name of an enabled function-like macro that is
   followed by `(` in the rest of the source (an invocation that spans the end of a replacement list: rssl decides it
   with `early_function_pos`/`last_macro_function_index`, C with hide sets, and they differ: deviations
@@ -46,6 +49,17 @@ def Kept (env : List Entry) (t : PTok) (rest : List PTok) : Prop :=
 def OnlyDisabled (env : List Entry) (l : List PTok) : Prop :=
   ∀ t ∈ l, ∀ n, t.tok = .id n → ∀ e ∈ env, e.m.name = n → e.disabled = true
 
+/-- no token of `l` starts an operation where it stands: the list expands to itself, token by token -/
+def AllKept (env : List Entry) : List PTok → Prop
+  | [] => True
+  | t :: rest => Kept env t rest ∧ AllKept env rest
+
+/-- the side condition on an argument `a` of an invocation and what it expanded to, `a'`: `a'` names disabled macros
+only, or nothing happened in `a` at all (`a' = a`, token by token).  The second case is the higher-order use of a
+macro: the bare name of an enabled function-like macro is passed (`APPLY(NEG, a)`, `LIST(DECL)`), not followed by `(`
+inside the argument, and the replacement list invokes it. -/
+def ArgOK (env : List Entry) (a a' : List PTok) : Prop := OnlyDisabled env a' ∨ AllKept env a
+
 /-- the expansion `R` of the replacement list of entry `mi`, followed by `rest`, gives no invocation that spans
 the end of `R`: if an identifier of `R` is followed by white space only up to the end of `R` and `rest` starts with
 `(`, then the function-like entries of that name are disabled, or are `mi` itself -/
@@ -63,7 +77,7 @@ inductive Tame : List Entry → List PTok → List PTok → Prop
       readArgs e.m rest = .ok (rest', args) →
       args'.length = args.length →
       (∀ (i : Nat) (a a' : List PTok), args[i]? = some a → args'[i]? = some a' → Tame env a a') →
-      (∀ a' ∈ args', OnlyDisabled env a') →
+      (∀ (i : Nat) (a a' : List PTok), args[i]? = some a → args'[i]? = some a' → ArgOK env a a') →
       substitute e.m.body args' = .ok body' →
       Tame (disable env mi) body' R →
       NoFire env mi R rest' →
